@@ -403,8 +403,18 @@ def check_wrapper(run, pkg, wname, inner):
                loc=ci.module.relpath + f":{ci.node.lineno}", sound=True)
     app = [e for e in it.events if e.kind == "call" and e.data["call"][1] == ".append" and e.loops == ce.loops]
     ok_a = len(app) == 1 and app[0].data["call"][2][1] == snap and app[0].seq > (brk[0].seq if brk else -1)
-    run.ob("R-LOOPDOM", fq, "append", True if ok_a else None, "every frame read is appended once, in read order", f"{len(app)} appends",
-           witness=None if ok_a else "frames dropped / duplicated / sentinel appended", loc=fi.loc())
+    ok_a = True if ok_a else None
+    wit_a = "frames dropped / duplicated / sentinel appended"
+    if ok_a and brk:
+        # the append may depend on nothing but "the reader did not return the sentinel": any further test drops frames the file holds
+        base = set(brk[0].guards[:-1]) | {(brk[0].guards[-1][0], not brk[0].guards[-1][1])}
+        extra = [(c, pol) for c, pol in app[0].guards if (c, pol) not in base and (c, pol) not in set(ce.guards)]
+        if extra:
+            ok_a = False
+            wit_a = (f"the frame is appended only when {show(extra[0][0])[:90]} is {extra[0][1]}: a well-formed dump for which the test fails (e.g. consecutive frames with "
+                     f"equal TIMESTEP lines) loses those frames - fewer snapshots than frames in the file")
+    run.ob("R-LOOPDOM", fq, "append", ok_a, "every frame read is appended once, in read order, unconditionally", f"{len(app)} appends",
+           witness=None if ok_a else wit_a, loc=fi.loc(), sound=True)
     augs = [e for e in it.events if e.kind == "aug" and e.loops == ce.loops]
     ok_c = len(augs) == 1 and augs[0].data["op"] == "+" and augs[0].data["value"] == C(1) and augs[0].seq > (brk[0].seq if brk else -1)
     if len(it.returns) != 1:
